@@ -17,6 +17,9 @@ def specs(ctx):
     s += sysrun.specs_cancel(ctx, two, ['future'], pts)
     s += sysrun.specs_early_cancel(ctx, two[::2], seeds=3 if not ctx.thorough() else 6)
     s += sysrun.specs_cancel(ctx, two[::3], ['shutdown', 'exit_exc'], pts[::2])
+    # a stage's pool refuses a submit (no new worker thread can be started): one more fault position
+    s += sysrun.specs_submit_fault(ctx, two[:: (1 if ctx.thorough() else 2)], seeds=2 if ctx.thorough() else 1)
+    s += sysrun.specs_submit_fault_handoff(ctx, subs=[dict(), dict()])
     return s
 
 
@@ -24,7 +27,8 @@ def run(ctx):
     sysrun.run_specs(ctx, PROP_FILE, specs(ctx), mons(),
                      rule='recording subscribers (two per transfer; raising on_done; callbacks calling back into the future; size supplied '
                           'in on_queued) on every transfer type/mode in every outcome: success, each fault position, each cancellation point '
-                          '(incl. cancel racing the submission thread: two announcers); distinct = distinct event trace')
+                          '(incl. cancel racing the submission thread: two announcers; a stage refusing a submit, with directed schedules for the '
+                          'GetObject-to-IO hand-off racing the failing submission task); distinct = distinct event trace')
 
 
 def replay(ctx, data):
